@@ -7,7 +7,7 @@ from harness import core, py2lean, instantiate
 from harness.core import Outcome, f2b, b2f
 
 ID = "C16"
-LEAN_TARGETS = ["BeyondVerif.Props.C16"]
+LEAN_TARGETS = ["BeyondVerif.Props.C16", "BeyondVerif.Props.C16Helpers"]
 THEOREMS = [
     "BeyondVerif.C16.cw_zero",
     "BeyondVerif.C16.cw_solves_hill",
@@ -23,6 +23,12 @@ THEOREMS = [
     "BeyondVerif.C16.continuous_resumed",
     "BeyondVerif.C16.continuous_already_passed",
     "BeyondVerif.C16.continuous_after",
+    "BeyondVerif.C16.coelliptic_drift",
+    "BeyondVerif.C16.hohmann_moves",
+    "BeyondVerif.C16.hohmann_continuous_moves",
+    "BeyondVerif.C16.eccentric_boost_moves",
+    "BeyondVerif.C16.tangential_boost_moves",
+    "BeyondVerif.C16.vbar_linear_moves",
 ]
 LEVEL_TEXT = ("Lean theorems over R about the evolution and acceleration matrices translated from cw.py on every run: the propagated state has, "
               "component by component, the derivative prescribed by Hill's equations with constant thrust (HasDerivAt, all t, all n != 0), "
@@ -39,7 +45,7 @@ TRUSTED = [
 ASSUMPTIONS = ["maneuvers are given in the frame of the orbit (frame=None); QSW/TNW-tagged maneuvers belong to C17",
                "theorems are over R; the implementation computes in IEEE doubles"]
 NOT_COVERED = ["second-order agreement with the difference of two Keplerian orbits (asymptotic statement about the true dynamics): oracle only"]
-OPEN = ["CWHelper outcome theorems (hohmann_moves, eccentric_boost_moves, ...) are checked by the oracle only, not yet stated in Lean"]
+OPEN = ["the helper theorems take the helper's delta-v / acceleration formulas as quoted from cwhelper.py; that the real helper returns exactly those values is checked by the correspondence run (helper-formulas), not by translation"]
 RULE = ("correspondence: random (n from radii LEO..GEO, |t| <= 2 periods, relative states up to km and m/s, 0-4 maneuvers, both orientations) through "
         "ClohessyWiltshire._propagate/propagate vs the compiled Lean model; non-trivial = t != 0; distinct = distinct request line. "
         "oracle: finite-difference Hill residual, composition, impulse jump, TNW permutation, helper outcomes on the real API")
@@ -162,11 +168,49 @@ def correspondence(ctx):
         meta.append(("propagate", list(map(float, real)), sp, sp * n + 2.0, {"ori": ori, "sma": sma, "t": t, "x": x, "mans": mans}))
         napplied = sum(1 for m in mans if t >= m[1] > 0)
         out.count(key=reqs[-1], nontrivial=t != 0, kind="propagate-" + ori, mans=len(mans), applied=napplied, chrono=chrono)
+    helper_formulas(out, rng, ctx.n(40, 400))
     replies = core.Driver().run(reqs)
     for req, (kind, real, sp, sv, inp), rep in zip(reqs, meta, replies):
         compare(out, kind, req, real, rep, sp, sv, inp)
         out.sample({"request": req[:120] + "…", "impl": real, "model": [b2f(s) for s in rep.split()] if rep[0].isdigit() else rep}, limit=2)
     return out
+
+
+def helper_formulas(out, rng, N):
+    """the maneuvers returned by CWHelper are exactly those the helper theorems of Props/C16Helpers.lean start from"""
+    import numpy as np
+    from beyond.dates import timedelta
+    from beyond.utils.cwhelper import CWHelper
+    for _ in range(N):
+        sma = rng.choice([6.7e6, 7.0e6, 2.66e7, 4.2164e7]) * rng.uniform(0.99, 1.01)
+        orb0, prop, d0 = make("QSW", sma, [0] * 6)
+        hp = CWHelper(prop)
+        n = float(prop.n)
+        r = rng.uniform(-3000, 3000)
+        d = rng.uniform(-3000, 3000)
+        v = rng.uniform(0.01, 1.0)
+        period = 2 * math.pi / n
+        exp = []
+        got = []
+        co = hp.coelliptic(d0, r, d)
+        got.append(list(map(float, co))); exp.append([r, d, 0, 0, -1.5 * n * r, 0])
+        m = hp.hohmann(r, d0)
+        got.append(list(m[0]._dv) + list(m[1]._dv) + [(m[1].date - m[0].date).total_seconds()]); exp.append([0, r * n / 4, 0] * 2 + [period / 2])
+        m = hp.hohmann(r, d0, continuous=True)
+        got.append(list(m[0]._accel) + [m[0].duration.total_seconds()]); exp.append([0, 2 * (r * n / 4) / period, 0, period])
+        m = hp.eccentric_boost(d, d0)
+        got.append(list(m[0]._dv) + list(m[1]._dv) + [(m[1].date - m[0].date).total_seconds()]); exp.append([-(d * n / 4), 0, 0] * 2 + [period / 2])
+        m = hp.tangential_boost(d, d0)
+        got.append(list(m[0]._dv) + list(m[1]._dv) + [(m[1].date - m[0].date).total_seconds()]); exp.append([0, -(d * n / (6 * math.pi)), 0, 0, d * n / (6 * math.pi), 0, period])
+        m = hp.vbar_linear(d, d0, v)
+        sv = math.copysign(v, d)
+        got.append(list(m[0]._dv) + list(m[1]._accel) + list(m[2]._dv) + [m[1].duration.total_seconds()]); exp.append([0, sv, 0, -(2 * n * sv), 0, 0, 0, -sv, 0, abs(d / v)])
+        out.count(key=("helper-formulas", sma, r, d, v), kind="helper-formulas")
+        for g, e in zip(got, exp):
+            if not all(abs(float(a) - b) <= 1e-9 * max(abs(b), 1e-12) + 2e-6 * (abs(b) > 100) for a, b in zip(g, e)):
+                out.fail("helper-formulas", "CWHelper returns maneuvers different from the formulas the helper theorems start from",
+                         {"sma": sma, "radial": r, "tangential": d, "v": v}, observed=[float(x) for x in g], expected=e)
+                break
 
 
 # ---------------------------------------------------------------- oracle on the real API
